@@ -75,6 +75,11 @@ def run(ctx):
     items = items[:nund] + items[nund:nund + cap]
     for n, it in enumerate(items):
         it["text"] = reindent(ctx, it["text"], n)
+        if n % 7 == 5:      # non-ASCII text inside string literals: columns are bytes on both sides
+            it["text"] = it["text"].replace('"s"', '"s\xc3\xa9\xe2\x82\xac"').replace("`r`", "`r\xc3\xa9`")
+    from props import scale
+    for s in scale.items(ctx, quick, max_nest=17 if quick else 40, max_n=17 if quick else 130):      # long lines (column deltas >= 512), many lines, many names
+        items.append(dict(id=s["id"], text=s["text"]))
     ctx.cov["samples"] = [dict(text=i["text"]) for i in (items[1], items[nund + 3], items[-1])]
     fails = validate(ctx, items)
     ctx.cov["distinct_nontrivial"] = len(items)
